@@ -75,6 +75,9 @@ def check_custom(ctx):
         lines.append('gp_custom ' + body)
         cases.append((('custom', 'no-pad', n, m), (n, m), lambda u=u, H=H, A=A: LW.custom(torch.from_numpy(u), torch.from_numpy(H), zero_padding=False,
                                                                                           aperture=torch.from_numpy(A))))
+        lines.append('gp_custom_ones %d %d %s %s' % (n, m, W.enc_field(u), W.enc_field(A.astype(np.complex128))))
+        cases.append((('custom', 'kernel-None', n, m), (n, m), lambda u=u, A=A: LW.custom(torch.from_numpy(u), None, zero_padding=False,
+                                                                                        aperture=torch.from_numpy(A))))
         if n >= 5 and m >= 5:                                            # zero_pad reads a last axis < 5 as channels
             lines.append('gp_custom_pad ' + body)
             cases.append((('custom', 'fourier-pad', n, m), (2 * n, 2 * m),
